@@ -363,15 +363,21 @@ def Converter.call (c : Converter) (args : List Val) (kwargs : List (Name × Val
 
 /-! ### Specification: the documented linking algorithm as a direct function -/
 
-/-- the destination built field by field: every field in definition order
-    takes the value given for it, else its default (or is absent) -/
-def construct (s : InShape) (vals : List (Name × Option Val)) : Option Val :=
-  (s.fields.mapM (m := Option) (fun (f : InField) =>
-    match vals.lookup f.id with
-    | some (some v) => some (some (f.id, v))
-    | some none => if f.required then none else some (f.default.map (fun d => (f.id, d)))
-    | none => (none : Option (Option (Name × Val))))).map
-      (fun (l : List (Option (Name × Val))) => Val.obj s.cls (l.filterMap id))
+/-- the destination built field by field, in definition order: a field takes
+    the value of its link (`some (some v)`), a skipped optional field its default
+    or is absent (`some none`); `none`: the field has no defined value -/
+def specFields (fieldVal : InField → Option (Option Val)) : List InField → Option (List (Name × Val))
+  | [] => some []
+  | f :: fs =>
+    match fieldVal f with
+    | none => none
+    | some (some v) => (specFields fieldVal fs).map ((f.id, v) :: ·)
+    | some none =>
+      if f.required then none
+      else
+        match f.default with
+        | some d => (specFields fieldVal fs).map ((f.id, d) :: ·)
+        | none => specFields fieldVal fs
 
 /-- the value a linked source denotes: a field of the source object (read with
     its accessor) or an extra parameter (looked up *by name*) -/
@@ -421,15 +427,13 @@ def coerceSpec (W : World) (recipe : List Provider) (params : List CtxParam) (pv
       | none =>
         match W.inShape dl.ty, W.outShape sl.ty with
         | some ds, some ss =>
-          match ds.fields.mapM (fun f =>
+          (specFields (fun f =>
               let req : LinkReq := { srcStack := src, sources := ss.fields, params := params, dst := f.loc :: dst }
               match fetchFieldLinking recipe req f with
               | .failed => none
-              | .skipped => some (f.id, none)
-              | .linked l =>
-                (specFieldValue (coerceSpec W recipe params pvals n) req dst f v pvals l).map (fun x => (f.id, some x))) with
-          | none => none
-          | some vals => construct ds vals
+              | .skipped => some none
+              | .linked l => (specFieldValue (coerceSpec W recipe params pvals n) req dst f v pvals l).map some)
+            ds.fields).map (Val.obj ds.cls)
         | _, _ =>
           match sl.ty, dl.ty, v with
           | .iter _ a, .iter o b, .seq _ xs =>
